@@ -147,6 +147,10 @@ func run(t *rapid.T, prop string) {
 			// C01's or C11's: it is a result like any other (and compared as such)
 			core.Probe("operation-panicked-sequentially")
 		}
+		if out.ArgChanged != "" {
+			core.Violation(t, "C01:I1:argument-changed", "an operation changed a value passed to it: "+ex.Desc+": "+out.ArgChanged, tr)
+			return
+		}
 		add(out.New)
 		if !checkI1("after build op " + ex.Desc) {
 			report("sequential")
@@ -331,6 +335,10 @@ func run(t *rapid.T, prop string) {
 		t.Fatalf("harness: run did not finish (deadlock=%v overrun=%v steps=%d)", s.Deadlock, s.Overrun, s.Steps)
 	}
 	for _, r := range records {
+		if r.conc.ArgChanged != "" {
+			core.Violation(t, "C01:I1:argument-changed", "an operation changed a value passed to it: "+r.Desc+": "+r.conc.ArgChanged, tr)
+			return
+		}
 		core.Probe("op:" + r.ex.Kind)
 		if strings.HasPrefix(r.conc.Canon, "Err:") {
 			core.Probe("op-result-is-error")
